@@ -8,10 +8,15 @@ import (
 	"encoding/binary"
 	"errors"
 	"fmt"
+	"go/ast"
+	"go/parser"
+	"go/token"
 	"io"
 	"net"
 	"net/http"
 	"os"
+	"path/filepath"
+	"sort"
 	"strconv"
 	"strings"
 	"sync"
@@ -71,9 +76,79 @@ func TestVerifConsts(t *testing.T) {
 		nums = append(nums, strconv.FormatInt(num, 10))
 	}
 	fmt.Fprintf(&sb, "Definition c19_pad_field_numbers : list Z := [%s]%%Z.\n", strings.Join(nums, "; "))
+	// the read-limiting call sites of the set-up code of both reference peers (C19_Model: chain_of)
+	for _, peer := range []struct{ name, dir string }{{"server", "../referenceserver"}, {"client", "../referenceclient"}} {
+		kinds, err := verifC19ReadLimiters(peer.dir)
+		if err != nil {
+			t.Fatal(err)
+		}
+		fmt.Fprintf(&sb, "Definition c19_%s_read_limiters : list Z := [%s]%%Z.\n", peer.name, strings.Join(kinds, "; "))
+	}
 	if err := os.WriteFile(out, []byte(sb.String()), 0o644); err != nil {
 		t.Fatal(err)
 	}
+}
+
+// verifC19ReadLimiters lists, in source order, the calls in the non-test files of a package that put a
+// bound on what is read from a request / response: 0 for connect.WithReadMaxBytes (a bound on each
+// message), 1 for anything that bounds a body as a whole (http.MaxBytesHandler, http.MaxBytesReader,
+// io.LimitReader, an io.LimitedReader literal).
+func verifC19ReadLimiters(dir string) ([]string, error) {
+	files, err := filepath.Glob(filepath.Join(dir, "*.go"))
+	if err != nil {
+		return nil, err
+	}
+	sort.Strings(files)
+	perBody := map[string]bool{"http.MaxBytesHandler": true, "http.MaxBytesReader": true, "io.LimitReader": true, "io.LimitedReader": true}
+	var kinds []string
+	fset := token.NewFileSet()
+	for _, file := range files {
+		if strings.HasSuffix(file, "_test.go") {
+			continue
+		}
+		parsed, err := parser.ParseFile(fset, file, nil, 0)
+		if err != nil {
+			return nil, err
+		}
+		// names the file imports the packages under
+		alias := map[string]string{}
+		for _, imp := range parsed.Imports {
+			path, _ := strconv.Unquote(imp.Path.Value)
+			canonical := map[string]string{"connectrpc.com/connect": "connect", "net/http": "http", "io": "io"}[path]
+			if canonical == "" {
+				continue
+			}
+			name := canonical
+			if imp.Name != nil {
+				name = imp.Name.Name
+			}
+			alias[name] = canonical
+		}
+		ast.Inspect(parsed, func(node ast.Node) bool {
+			var sel *ast.SelectorExpr
+			switch n := node.(type) {
+			case *ast.CallExpr:
+				sel, _ = n.Fun.(*ast.SelectorExpr)
+			case *ast.CompositeLit:
+				sel, _ = n.Type.(*ast.SelectorExpr)
+			}
+			if sel == nil {
+				return true
+			}
+			pkg, ok := sel.X.(*ast.Ident)
+			if !ok || alias[pkg.Name] == "" {
+				return true
+			}
+			switch name := alias[pkg.Name] + "." + sel.Sel.Name; {
+			case name == "connect.WithReadMaxBytes":
+				kinds = append(kinds, "0")
+			case perBody[name]:
+				kinds = append(kinds, "1")
+			}
+			return true
+		})
+	}
+	return kinds, nil
 }
 
 // ---------------------------------------------------------------------------
